@@ -88,7 +88,9 @@ func gen(r *core.PRNG, tier string) any {
 	}
 	n := r.Range(1, 6)
 	for i := 0; i < n; i++ {
-		if r.Chance(2, 3) {
+		if r.Chance(1, 6) {
+			p.Ops = append(p.Ops, Op{K: "bad", Len: r.Intn(1 << 10)})
+		} else if r.Chance(2, 3) {
 			p.Ops = append(p.Ops, Op{K: "seal", Pt: r.Hex(r.EdgeLen(70, 0, 16, 32)), Aad: r.Hex(r.EdgeLen(30, 0))})
 		} else {
 			nh := hpkeref.Nh(uint16(p.KDF))
@@ -502,6 +504,20 @@ func exec(planJSON []byte, run *core.Run) {
 				sealed++
 			}
 			run.T("seal")
+		case "bad":
+			// a corrupted record reaches the (matching or not) receiver: it must be refused
+			// and must not disturb what follows
+			ct := mctx.Seal(seq, []byte("corrupt me"), nil)
+			b := op.Len % (len(ct) * 8)
+			ct[b/8] ^= 1 << (b % 8)
+			_, err := opener.Open(ct, nil)
+			run.Fault("transport:record-corrupted")
+			run.Event("receiver", "open-corrupted", err)
+			run.T("bad")
+			if err == nil {
+				run.Violate("hpke.Opener.Open", "opens-corrupted-record", "a record with bit %d flipped opened", b)
+				return
+			}
 		case "export":
 			nh := hpkeref.Nh(uint16(p.KDF))
 			if op.Len < 0 || op.Len > 255*nh {
